@@ -4,11 +4,16 @@ func init() {
 	register("C13", "Storage backends implement the same read semantics", func(e *Engine, r *Reporter) {
 		ruleFilterEffect(e, r)
 		ruleGuardShape(e, r)
+		ruleTupleIdentity(e, r)
+		ruleTypePrefixDelimited(e, r)
 		r.Rule("sibling-sql-read", "mysql and postgres (same schema) build the same predicates for each tuple read", 4)
 		ruleSiblingSQL(e, r, []string{"read", "ReadUserTuple", "ReadUsersetTuples", "ReadStartingWithUser"}, map[string]bool{"tuple": true})
 	})
 	register("C16", "Stores are isolated from each other", func(e *Engine, r *Reporter) {
 		ruleStoreScoped(e, r)
+		ruleKeyHasStore(e, r)
+		ruleSingleflightKeys(e, r)
+		ruleDeletedStoresHidden(e, r)
 	})
 }
 
@@ -29,9 +34,11 @@ func init() {
 	register("C12", "Writes are atomic and honour on_duplicate/on_missing", func(e *Engine, r *Reporter) {
 		ruleTxnDiscipline(e, r)
 		ruleCompositeKeyComplete(e, r)
+		ruleBatchStride(e, r)
 	})
 	register("C15", "The changelog faithfully records tuple history", func(e *Engine, r *Reporter) {
 		ruleAppendOnly(e, r, "changelog", "changelog-append-only", "the changelog table is only ever SELECTed or INSERTed, and INSERTs run on the write transaction", 6, true)
+		ruleBatchStride(e, r)
 	})
 	register("C17", "Models are validated, immutable and resolved to the latest", func(e *Engine, r *Reporter) {
 		ruleAppendOnly(e, r, "authorization_model", "model-immutable-sql", "no UPDATE/DELETE statement on authorization_model exists in any SQL backend", 8, false)
@@ -175,4 +182,49 @@ func init() {
 		NotDecided: "CEL's own semantics and the converters' value mapping per parameter type.",
 	})
 	techniques["C25"] = "return-site analysis + cut reachability on SSA; argument-order check of the context merge"
+}
+
+// rewriteSwitchAllowances: reviewed intentional subsets of the six rewrite kinds (reason each).
+var rewriteSwitchAllowances = map[string]switchAllowance{
+	"pkg/typesystem.TypeSystem.ResolveComputedRelation switch(isUserset_Userset)": {[]string{"Userset_Difference", "Userset_Intersection", "Userset_TupleToUserset", "Userset_Union"}, "follows chains of computed usersets only; anything else is an error by contract (default fails closed)"},
+	"pkg/typesystem.TypeSystem.relationInvolves switch(isUserset_Userset)":        {[]string{"Userset_This", "Userset_Union"}, "a visitor for WalkUsersetRewrite that only reacts to the kinds it looks for; the walk itself is total"},
+	"pkg/typesystem.TypeSystem.isUsersetRewriteValid switch(isUserset_Userset)":   {[]string{"Userset_This"}, "direct assignment needs no structural validation here (type restrictions are validated separately)"},
+	"pkg/typesystem.flattenUserset switch(isUserset_Userset)":                     {[]string{"Userset_ComputedUserset", "Userset_This"}, "leaves are returned as they are"},
+}
+
+func ruleRewriteDispatch(e *Engine, r *Reporter, pkgs []string, table map[string]switchAllowance, ruleID, text string, floor int) {
+	r.Rule(ruleID, text, floor)
+	for _, s := range e.typeSwitches() {
+		if s.Subject != "isUserset_Userset" {
+			continue
+		}
+		in := false
+		for _, p := range pkgs {
+			if short(s.Pkg.PkgPath) == p {
+				in = true
+			}
+		}
+		if !in {
+			continue
+		}
+		ok, d := judgeSwitch(s, table)
+		r.Check(ok, s.key(), e.pos(s.Pos), d, d)
+	}
+}
+
+func init() {
+	register("C01", "Check decisions match the model's relation semantics", func(e *Engine, r *Reporter) {
+		ruleRewriteDispatch(e, r, []string{"internal/graph", "pkg/typesystem"}, rewriteSwitchAllowances, "rewrite-dispatch-total", "every type switch over the six rewrite kinds in the default engine and the typesystem covers all of them, or the reviewed subset with a fail-closed default", 8)
+		ruleReadSitesFiltered(e, r, map[string]bool{"v1": true})
+		ruleDirectTupleGuards(e, r)
+		ruleConditionErrorsUsed(e, r, []string{"internal/graph", "internal/checkutil", "pkg/server/commands", "internal/check", "internal/listobjects"})
+		ruleCloneComplete(e, r, []string{"internal/graph", "internal/check", "pkg/server/commands/reverseexpand"})
+		// the fail-closed core of condition evaluation is shared with C25
+		ruleConditionEval(e, r)
+	})
+	describe("C01", meta{
+		Decides:    "(1) rewrite dispatch in the default engine and the typesystem is total over the six rewrite kinds (reviewed subsets frozen with reasons); (2) every iterator or tuple the default engine, ListUsers and reverse expansion obtain from a tuple reader passes FilterInvalidTuples/ValidateTupleForRead and a condition evaluation before use, and checkDirectUserTuple sets Allowed only behind both; (3) condition evaluation is fail-closed (C25 rules) and every caller consumes its error; (4) the sub-problem request clones (graph, check, reverse expand) assign every field of their struct.",
+		NotDecided: "that the reducers, the cycle cut and PathExists pruning implement the least fixpoint; three-valued precedence inside union/intersection/exclusion; the content of the validators (which tuples they accept).",
+	})
+	techniques["C01"] = "exhaustiveness of rewrite switches, forward value-flow of read results into filter constructors, cut reachability, clone field coverage"
 }
